@@ -31,7 +31,7 @@ func main() {
 		panic(err)
 	}
 	switch *family {
-	case "engine", "fe", "modes":
+	case "engine", "fe", "modes", "builder":
 		engine(*family, *profile, *seed, *n, *out, *shard, *ids)
 	default:
 		only := map[int]bool{}
@@ -114,6 +114,8 @@ func engine(family, profile string, seed uint64, n int, out string, shard int, i
 				flush()
 			}
 			continue
+		} else if family == "builder" {
+			c = eng.NewBuilderCase(g, i)
 		} else if family == "fe" {
 			c = eng.NewFECase(g, i)
 			if c.FEDiff != "" {
@@ -143,6 +145,14 @@ func engine(family, profile string, seed uint64, n int, out string, shard int, i
 	}
 	flush()
 	probes := []map[string]any{}
+	if family == "builder" && len(only) == 0 {
+		g := &eng.Gen{R: eng.NewRng(seed), P: p}
+		detail, bad := eng.SharedSchemaProbe(g)
+		probes = append(probes, map[string]any{"tag": "share", "failed": bad, "detail": detail})
+		if bad {
+			failures = append(failures, map[string]any{"id": 1000000, "tags": []string{"share"}, "detail": detail})
+		}
+	}
 	if family == "fe" && len(only) == 0 {
 		for k, p := range eng.FEProbes() {
 			probes = append(probes, map[string]any{"tag": p.Tag, "failed": p.Failed, "detail": p.Detail})
